@@ -47,27 +47,21 @@ Section Buf.
     - (* the call failed *)
       rewrite E. subst r. change (negb (-1 =? -1)) with false. cbv beta iota.
       destruct (classify_cases (s_errno s1)) as [[K Ee] | [[K Ee] | [K [Ne1 Ne2]]]]; rewrite K.
-      + (* would block *)
-        destruct nb0 eqn:N; cbn [negb].
-        * exists O, (would_block sh (s_errno s1)). split; [exact G1|]. split; [exact NB1|]. split.
-          -- right. repeat split; auto. unfold total. cbn [sumn]. lia.
-          -- intros _ _. auto.
-        * destruct (do_wait limit start s1) as [[ok left'] s3] eqn:DW.
-          assert (G1' : Good lens sh false false s1 O) by (eapply goodL_nb0_false; [reflexivity | exact G1]).
-          destruct (good_wait lens sh false _ _ _ _ _ _ _ eq_refl G1' DW) as (G3 & NB3 & E3 & Q3).
-          destruct ok.
-          -- split; [reflexivity|]. split; [exact G3|]. split; [congruence|].
-             intros _. right. rewrite Q3, E3. repeat split; auto. unfold total. cbn [sumn]. lia.
-          -- exists O, false. split; [exact G3|]. split; [congruence|]. split; [left; reflexivity|].
-             intros; discriminate.
+      + (* would block: waits, whatever the caller's mode *)
+        destruct (do_wait limit start s1) as [[ok left'] s3] eqn:DW.
+        destruct (good_wait lens sh nb0 _ _ _ _ _ _ _ _ G1 DW) as (G3 & NB3 & E3 & Q3).
+        destruct ok.
+        * split; [reflexivity|]. split; [exact G3|]. split; [congruence|].
+          intros _. right. rewrite Q3, E3. repeat split; auto. unfold total. cbn [sumn]. lia.
+        * exists O. split; [exact G3|]. split; [congruence|]. left; reflexivity.
       + (* interrupted *)
         split; [reflexivity|]. split.
         * rewrite wb_buf, Ee in G1. exact G1.
         * split; [exact NB1|]. intros _. right. repeat split; auto. unfold total. cbn [sumn]. lia.
       + (* hard error *)
-        exists O, false. split.
+        exists O. split.
         * rewrite wb_buf in G1. replace (s_errno s1 =? EAGAIN) with false in G1 by lia. exact G1.
-        * split; [exact NB1|]. split; [|intros; discriminate].
+        * split; [exact NB1|].
           right. repeat split; auto. unfold total. cbn [sumn]. lia.
     - (* the call moved m bytes *)
       rewrite E. subst r.
@@ -75,9 +69,9 @@ Section Buf.
       rewrite Nat2Z.id. cbn [Nat.add].
       assert (FIN : forall s2, s_reqs s2 = s_reqs s1 -> s_moved s2 = s_moved s1 -> s_waits s2 = s_waits s1 ->
                      s_nb s2 = s_nb s1 -> FinalF lens sh nb0 true (Z.of_nat m) s2).
-      { intros s2 Q1 Q2 Q3 Q4. exists m, false. split.
+      { intros s2 Q1 Q2 Q3 Q4. exists m. split.
         - unfold Good. rewrite Q1, Q2, Q3. exact G1.
-        - split; [congruence|]. split; [left; reflexivity | intros; discriminate]. }
+        - split; [congruence|]. left; reflexivity. }
       destruct ((len <=? m)%nat || (is_rd d && (Z.of_nat m =? 0))).
       + cbv beta iota. apply FIN; reflexivity.
       + cbv beta iota. cbn [set_errno s_errno]. change (classify 0) with KOther. cbv iota.
@@ -100,7 +94,7 @@ Section Buf.
         * exfalso. unfold buf_body in EB. cbn [exhausted kcall snd fst] in EB.
           cbv beta iota zeta in EB. change (negb (-1 =? -1)) with false in EB. cbv beta iota in EB.
           cbn [s_errno] in EB. change (classify ECONNRESET) with KOther in EB. discriminate.
-      + exists O, false. split; [exact G|]. split; [exact NB|]. split; [|intros; discriminate].
+      + exists O. split; [exact G|]. split; [exact NB|].
         destruct (RWr eq_refl) as [R0 | (R1 & T & LE & NZ)]; [left; subst; reflexivity | right; auto].
     - cbn [forallb] in W. apply andb_true_iff in W as [Wx Wsc].
       destruct ((0 <? len)%nat && (0 <? left)) eqn:C.
@@ -109,7 +103,7 @@ Section Buf.
         destruct (buf_body d (negb nb0) limit start len x O left s) as [r' s'|rc' l' r' s'].
         * exact B.
         * destruct B as [-> B]. apply IH; assumption.
-      + exists O, false. split; [exact G|]. split; [exact NB|]. split; [|intros; discriminate].
+      + exists O. split; [exact G|]. split; [exact NB|].
         destruct (RWr eq_refl) as [R0 | (R1 & T & LE & NZ)]; [left; subst; reflexivity | right; auto].
   Qed.
 End Buf.
